@@ -49,6 +49,16 @@ CHECKS = {
             "and emulated against the original.",
             "format limits (length fields <= 65534) bound the space; names/type names are not carried by the format; ASan + bounds instrumentation",
             "DESIGN.md 4/C13", True),
+    "C08": ("xsched", "model_checking",
+            "stateless model checking: exhaustive enumeration of thread interleavings of the real library under a cooperative scheduler with iterative preemption bounding; ThreadSanitizer free-running pass as a monitor",
+            "Four scenarios (concurrent orc_init; concurrent first calls through two once-guarded wrappers using the real orc_once_enter/leave; "
+            "concurrent compile/take_code/run/free plus raw allocations of forced sizes; concurrent runs of one function while another thread "
+            "compiles and frees) are executed for every interleaving of 2 threads (preemption bound 3 quick / 5 thorough) and 3 threads "
+            "(bound 2 / 3) at the hooked synchronisation points, each schedule in a fresh process. Oracles: no crash or deadlock, per-thread "
+            "results correct, exactly-once initialisation with every caller seeing the initialised object, allocator invariants, and an end "
+            "state equal to the sequential run. Failures are replayed twice before being reported.",
+            "sequential consistency between scheduling points; the hook points cover the library's complete synchronisation inventory; unsynchronised accesses are left to the TSan pass",
+            "DESIGN.md 4/C08", True),
 }
 
 NOT_YET = {}
@@ -89,6 +99,8 @@ def main():
             "add_only": True,
         },
         "engines": [
+            {"name": "xsched", "path": "engines/xsched.c", "serves_properties": ["C08"],
+             "kind_free_text": "cooperative scheduler over hooked synchronisation points + depth-first preemption-bounded explorer, fork per schedule, shared-memory trace so crashed schedules replay"},
             {"name": "xbc", "path": "engines/xbc.c", "serves_properties": ["C13"],
              "kind_free_text": "bytecode round-trip explorer over program spaces and boundary encodings (ASan+bounds build)"},
             {"name": "xparse", "path": "engines/xparse.c", "serves_properties": ["C14"],
